@@ -90,6 +90,17 @@ static const GraphD g_lazy = {4, {{1, {DEP("I")}, 1, {"C"}, 0, 2, 0, false, fals
 static const GraphD g_lazy2 = {5, {{1, {DEP("I")}, 1, {"C"}, 0, 2, 0, false, false}, {0, {}, 1, {"E"}, 5, 0, 0, false, false}, {0, {}, 1, {"F"}, 6, 0, 0, false, false}, {2, {DEP("E"), DEP("F")}, 1, {"D"}, 10, 0, 0, false, false}, {3, {DEP_ON("D", "C"), DEP("E"), DEP("F")}, 1, {"T"}, 100, 0, 0, false, false}},
                                1, {{"I", K_VALUE, false}}, 1, {"T"}, false};
 
+// two conditions evaluated by two vertices guard dependencies on the same target: both establish concurrently and both
+// activate the target's producer
+static const GraphD g_twocond = {5, {{1, {DEP("I")}, 1, {"C"}, 0, 2, 0, false, false}, {1, {DEP("J")}, 1, {"D"}, 0, 2, 0, false, false}, {0, {}, 1, {"X"}, 5, 0, 0, false, false}, {1, {DEP_ON("X", "C")}, 1, {"T"}, 100, 0, 0, false, false}, {1, {DEP_ON("X", "D")}, 1, {"U"}, 200, 0, 0, false, false}},
+                                 2, {{"I", K_VALUE, false}, {"J", K_VALUE, false}}, 2, {"T", "U"}, false};
+// the condition itself is injected while run() is activating; another dependency of the same vertex is produced slowly
+static const GraphD g_inject_condition = {2, {{1, {DEP("A")}, 1, {"U"}, 7, 0, 0, false, false}, {2, {DEP_ON("X", "C"), DEP("U")}, 1, {"T"}, 100, 0, 0, false, false}},
+                                          3, {{"A", K_VALUE, false}, {"X", K_VALUE, false}, {"C", K_VALUE, true}}, 1, {"T"}, false};
+// a requested target is itself injected while run() binds and activates it; a second target keeps a vertex in flight
+static const GraphD g_inject_target = {2, {{1, {DEP("A")}, 1, {"Y"}, 3, 0, 0, false, false}, {1, {DEP("X")}, 1, {"Z"}, 9, 0, 0, false, false}},   // the second vertex only makes X a data of the graph
+                                       2, {{"A", K_VALUE, false}, {"X", K_VALUE, true}}, 2, {"X", "Y"}, false};
+
 // ---- generated family: every dependency shape over a small pool -----------------------------------------------
 // VA: 1 dependency over {I0, I1} -> A (0/1, usable as a condition); VB: 1 dependency over {I0, I1, A} -> B;
 // VC: 2 dependencies over {I0, I1, A, B} -> T. A dependency = (target, none | on c | unless c with c != target, essential?).
@@ -145,6 +156,9 @@ static const Cfg cfgs[] = {
     {"diamond, thread pool with 2 workers, result delivered through on_finish()", &g_diamond, X_POOL2, 2, true},
     {"a failing vertex, thread pool with 2 workers, result delivered through on_finish()", &g_fail, X_POOL2, 1, true},
     {"on/unless over a shared target, thread pool with 2 workers, on_finish(), all target subsets", &g_cond, X_POOL2, 1, true},
+    {"two vertex-evaluated conditions guard one target: both activate its producer, thread per vertex", &g_twocond, X_THREADS, 1},
+    {"the condition of a dependency is injected concurrently with the run, thread per vertex", &g_inject_condition, X_THREADS, 1},
+    {"a requested target is injected concurrently with the run, thread per vertex", &g_inject_target, X_THREADS, 1},
 };
 // Called in every process before the memory snapshot is taken. babylon's WARNING lines on the error paths would pull
 // lazily initialised state of shared libraries (abseil's time zone tables) into the executions, and that state is
@@ -308,7 +322,7 @@ void harness_main(int c) {
   std::unique_ptr<Graph> graph = builder.build();
   bbmc::require((bool)graph, "builder.build");
   // payload memory under the happens-before race detector: a data's value and flags, a dependency's verdict
-  for (auto& d : graph->data()) { bbmc::race_scope(&d._data, sizeof d._data); bbmc::race_scope(&d._empty, sizeof d._empty); }
+  for (auto& d : graph->data()) { bbmc::race_scope(&d._data, sizeof d._data); bbmc::race_scope(&d._empty, sizeof d._empty); bbmc::interleave_plain(&d._active, sizeof d._active); }   // _active: unsynchronised 'already triggered' flag
   for (auto& v : graph->vertexes()) for (auto& d : v.dependencies()) { bbmc::race_scope(&d._ready, sizeof d._ready); }
   bbmc::race_scope(world.seen_present, sizeof world.seen_present); bbmc::race_scope(world.seen_value, sizeof world.seen_value);
 
@@ -377,6 +391,14 @@ void harness_main(int c) {
     }
     if (injected) injector.join();
     texec.join_all();
+    if (!cf.callback) {
+      // completion tracking at quiescence: every requested target that is published has been counted off exactly once,
+      // and no vertex is counted as running any more (read from the closure's private counters)
+      ClosureContext* cc = closure.context();
+      int unready = 0; for (GraphData* d : cc->_waiting_data) if (!d->ready()) unready++;   // targets the run got as far as binding (it stops at the first one that cannot be activated)
+      bbmc::check(cc->_waiting_data_num.load() == unready, "the closure's count of outstanding targets does not match the targets that are still unpublished (a publication was not counted, or counted twice)");
+      bbmc::check(cc->_waiting_vertex_num.load() == 0, "the closure still counts a vertex as running after wait() returned and every thread was joined");
+    }
     // ---- verdicts ----------------------------------------------------------------------------------
     if (!injected) bbmc::check((rc == 0) == ref_success, ref_success ? "the run failed although the sequential evaluation succeeds" : "the run reported success although a needed input is missing or a needed vertex failed");
     else if (!ref_success) bbmc::check(rc != 0, "the run reported success although the sequential evaluation fails");
